@@ -314,7 +314,7 @@ enum Action {
     Bank { to: String, amount: u128 },
 }
 
-fn err_tag(s: &str) -> String {
+pub fn err_tag(s: &str) -> String {
     let t: String = s
         .chars()
         .filter(|c| c.is_ascii_alphanumeric() || *c == ' ')
